@@ -114,3 +114,26 @@ Theorem C08_route_asks : forall model is_time hp dims mets filters find serves,
   hp = true /\ find = true /\
   forallb (fun d => match snd d with None => negb (is_time (V.Model.TryRoute.strip_model (fst d))) | Some _ => true end) dims = true.
 Proof. exact V.Proofs.C08_route_proofs.try_route_asks. Qed.
+
+Require V.Proofs.C09_proofs V.Proofs.C08_chain_proofs.
+(* THE CHAIN.  Every link is a model tied to the code by a regenerated table or a translation: _try_use_preaggregation (TryRoute_gen) asks can_satisfy_query (Satisfy_gen), which asks
+   _is_granularity_compatible (GranCompat_gen, translated), whose verdicts are calendar facts (C09_sound).  Composed: when a query is routed to a rollup at granularity pg -- the
+   matcher having returned it for the granularity it was asked about, the rollup serving exactly the granularities can_satisfy_query accepts -- then for EVERY granularity g that
+   some dimension of the query requests, and every timestamp t, the g-bucket of t is the g-bucket of t's rollup bucket: nothing the routed query computes from the rollup's time
+   column can differ from what the base table gives. *)
+Theorem C08_routed_granularities_exact : forall model is_time hp dims mets filters p qdims metrics fcols pg,
+  p_gran p = Some pg -> pg <> ""%string ->
+  (forall g, V.Model.TryRoute.last_gran dims None = Some g -> can_satisfy p qdims metrics (Some g) (is_granularity_compatible g pg) fcols = true) ->
+  fst (fst (V.Model.TryRoute.try_route model is_time hp dims mets filters true
+              (V.Proofs.C08_chain_proofs.serves_of is_granularity_compatible p qdims metrics fcols (V.Model.TryRoute.grans_of dims [])))) = true ->
+  forall d g, In (d, Some g) dims -> g <> ""%string -> forall t : Z, V.Proofs.C09_proofs.trunc_s g (V.Proofs.C09_proofs.trunc_s pg t) = V.Proofs.C09_proofs.trunc_s g t.
+Proof. exact V.Proofs.C08_chain_proofs.routed_granularities_exact. Qed.
+Example C08_chain_nonvacuous :
+  let p := {| p_dims := []; p_time := Some "ts"%string; p_gran := Some "day"%string |} in
+  let dims := [("ev.ts"%string, Some "day"%string); ("ev.ts"%string, Some "month"%string)] in
+  fst (fst (V.Model.TryRoute.try_route "ev" (String.eqb "ts") true dims ["ev.rev"%string] None true
+              (V.Proofs.C08_chain_proofs.serves_of is_granularity_compatible p ["ts"%string; "ts"%string] [(true, true)] None (V.Model.TryRoute.grans_of dims [])))) = true /\
+  (let p' := {| p_dims := []; p_time := Some "ts"%string; p_gran := Some "month"%string |} in
+   fst (fst (V.Model.TryRoute.try_route "ev" (String.eqb "ts") true dims ["ev.rev"%string] None true
+              (V.Proofs.C08_chain_proofs.serves_of is_granularity_compatible p' ["ts"%string; "ts"%string] [(true, true)] None (V.Model.TryRoute.grans_of dims [])))) = false).
+Proof. exact V.Proofs.C08_chain_proofs.chain_nonvacuous. Qed.
